@@ -118,9 +118,11 @@ def ifBranch (c : Value) : Option Bool :=
   | .null => some false
   | _ => none
 
-/-- The index arm of `build_filter` on a list (`rhv` is a number). -/
-def filterIndex (values : List Value) (index : Dec) : Value :=
-  if Dec.isInteger index then
+/-- The index arm of `build_filter` on a list (`rhv` is a number): any number equal to its
+truncation is an index; the truncated number is converted through its plain text. -/
+def filterIndex (values : List Value) (index0 : Dec) : Value :=
+  if Dec.cmp (Dec.trunc index0) index0 == .eq then
+    let index := Dec.trunc index0
     let size := values.length
     if !Dec.isNegative index then
       match Dec.toUsize? index with
